@@ -458,11 +458,20 @@ def census(obj, max_nodes=50000):
     return out
 
 
+_HOOK_METHODS = ("set_rng", "worker_init_fn", "_worker_init_fn")
+
+
 def repo_class_name(o):
-    """name of the first class in the MRO that lives in the repository (harness subclasses are named by their base)"""
+    """name of the repository class an object is blamed under: the first class in the MRO that lives in the repository;
+    presets of kappadata.common that do not define a hook method themselves are named by the base class they configure
+    (ByolMultiViewWrapper -> KDMultiViewWrapper, BYOLTransform0 -> KDComposeTransform); harness subclasses by their base"""
     for k in type(o).__mro__:
-        if (getattr(k, "__module__", "") or "").startswith("kappadata"):
-            return k.__name__
+        mod = getattr(k, "__module__", "") or ""
+        if not mod.startswith("kappadata"):
+            continue
+        if mod.startswith("kappadata.common") and not any(m in vars(k) for m in _HOOK_METHODS):
+            continue
+        return k.__name__
     return type(o).__name__
 
 
